@@ -74,7 +74,13 @@ Definition wf_C17 (close run pgc_run pgc_close mp_close igc idx_close : list sev
   && subseq [SClose "gc.stop"; SRecv "gc.done"] pgc_close
   && subseq [SCall "mp.gc.close"; SCall "mp.fileCache.Clear"; SCall "mp.Flush"; SCall "mp.file.Close"] mp_close
   && subseq [SDeferClose "index.gcDone"; SCase; SRecv "index.gcStop"; SIf; SRecv "gcDone"; SEndIf; SReturn] igc
-  && subseq [SClose "idx.gcStop"; SRecv "idx.gcDone"; SCall "idx.Flush"; SCall "idx.file.Close"; SCall "idx.saveBucketState"] idx_close.
+  && subseq [SClose "idx.gcStop"; SRecv "idx.gcDone"; SCall "idx.Flush"; SCall "idx.file.Close"; SCall "idx.saveBucketState"] idx_close
+  (* one cycle at a time (the LTS has ONE inner cycle per collector): the timer is re-armed only after the running cycle has
+     ended, never between the tick and the start of the cycle's goroutine *)
+  && subseq [SRecv "t.C"; SGo "?"; SEndGo; SCase; SRecv "gcDone"; SCall "t.Reset"] pgc_run
+  && negb (subseq [SRecv "t.C"; SCall "t.Reset"; SGo "?"] pgc_run)
+  && subseq [SRecv "t.C"; SGo "?"; SEndGo; SCase; SRecv "gcDone"; SCall "t.Reset"] igc
+  && negb (subseq [SRecv "t.C"; SCall "t.Reset"; SGo "?"] igc).
 
 (* ---- C05: critical-section structure of the index, the double-buffered flush, the store's commit order ---- *)
 Definition whole_body_locked (lk : string) (l : list sev) : bool :=
